@@ -43,6 +43,16 @@ CLAIMS = {
              "price (numeric).",
         technique="guarded-site reachability + operand-role provenance on MIR expressions; known-findings by exact key",
         ref="6/C17"),
+    "C18": dict(
+        text="Decides ledger conservation by shape for every cw20-legacy (bSei) variant and instantiate: each balance write is a delta "
+             "on the expected account, signed deltas sum to the total_supply delta with the same amount, no absolute overwrite of a "
+             "possibly existing balance (this rule found the repeated-initial-address defect, repaired by the fix: commit); hub-only "
+             "Mint/Burn guards; allowance deducted first with identical owner/spender/amount, failing on expiry, checked_sub; "
+             "CheckSlashing on the three burn paths. The stSei ledger is the version-pinned external cw20-base 0.16.0 (pin checked), "
+             "trusted, not analysed. Sum-over-accounts equality in every reachable state follows by induction over operations, "
+             "which is argued in DESIGN, not mechanised.",
+        technique="ledger-delta summaries from MIR write shapes + dominance + guard reachability + lockfile pin",
+        ref="6/C18"),
 }
 
 NA = {
